@@ -409,10 +409,12 @@ func TestVerifC16(t *testing.T) {
 	// first (an explicit schema must still be the one that is enforced).
 	c16Suite(t, env, res, "", false)
 	c16Suite(t, env, res, "/schema-cache", true)
+	c16Suite(t, env, res, "/retry-round-with-input-responses", false)
 	env.Finish(res)
 }
 
 func c16Suite(t *testing.T, env *verifx.Env, res *verifx.Result, suffix string, withCache bool) {
+	retryRound := strings.Contains(suffix, "retry-round")
 	ctx := context.Background()
 
 	// ---------- inputs
@@ -512,7 +514,13 @@ func c16Suite(t *testing.T, env *verifx.Env, res *verifx.Result, suffix string, 
 								callErr = fmt.Errorf("panic: %v", r)
 							}
 						}()
-						resT, callErr = cs.CallTool(ctx, &CallToolParams{Name: sc.name, Arguments: json.RawMessage(raw)})
+						params := &CallToolParams{Name: sc.name, Arguments: json.RawMessage(raw)}
+						if retryRound {
+							// the request is the second round of a multi round-trip call: it carries the client's
+							// answers to earlier input requests - and is validated like any other tools/call
+							params.InputResponses = InputResponseMap{"r1": &ListRootsResult{Roots: []*Root{}}}
+						}
+						resT, callErr = cs.CallTool(ctx, params)
 					}()
 					switch {
 					case callErr != nil:
@@ -549,6 +557,44 @@ func c16Suite(t *testing.T, env *verifx.Env, res *verifx.Result, suffix string, 
 			}
 		}
 		rec(0, map[string]any{})
+		// the "arguments" member as a whole: null, a non-object, an empty object.  null stands for "no
+		// arguments" (= {}); a non-object is never valid for an object schema.
+		for _, rawArgs := range []string{"null", "{}", "5", `"x"`, "[]", "true"} {
+			idx, mine := in.Next()
+			if !mine {
+				continue
+			}
+			desc := func() string { return fmt.Sprintf("schema=%s arguments=%s", sc.name, rawArgs) }
+			valid := false
+			if rawArgs == "null" || rawArgs == "{}" {
+				valid = c16Validate(sc.schema, c16Defaults(sc.schema, map[string]any{}))
+			}
+			handlerRuns, seen = 0, nil
+			var resT *CallToolResult
+			var callErr error
+			func() {
+				defer func() {
+					if r := recover(); r != nil {
+						callErr = fmt.Errorf("panic: %v", r)
+					}
+				}()
+				resT, callErr = cs.CallTool(ctx, &CallToolParams{Name: sc.name, Arguments: json.RawMessage(rawArgs)})
+			}()
+			switch {
+			case callErr != nil && valid:
+				in.Violate(idx, "c16 input call-failed", fmt.Sprintf("CallTool failed: %v [%s]", callErr, desc()), 1)
+			case callErr != nil:
+				in.Record(idx, "rejected-as-protocol-error "+sc.name, 1, desc) // refusing a non-object outright is fine too
+			case valid && (handlerRuns != 1 || resT.IsError):
+				in.Violate(idx, "c16 valid-arguments-rejected "+sc.name, fmt.Sprintf("no arguments are valid under the schema (after defaults) but the handler ran %d times, IsError=%v [%s]", handlerRuns, resT.IsError, desc()), 1)
+			case !valid && handlerRuns != 0:
+				in.Violate(idx, "c16 invalid-arguments-reached-handler "+sc.name, fmt.Sprintf("arguments %s violate the schema but the handler ran [%s]", rawArgs, desc()), 1)
+			case !valid && !resT.IsError:
+				in.Violate(idx, "c16 invalid-arguments-no-error "+sc.name, fmt.Sprintf("arguments %s violate the schema but the result is not a tool error [%s]", rawArgs, desc()), 1)
+			default:
+				in.Record(idx, fmt.Sprintf("whole-arguments valid=%v %s", valid, sc.name), 1, desc)
+			}
+		}
 	}
 
 	// ---------- outputs
